@@ -77,15 +77,16 @@ type Cluster struct {
 	Master  int
 	NextID  uint64
 
-	ExecSeq  uint64
-	Execs    []*Exec
-	Rules    []*Rule
-	Scanners map[uint64]*Scanner
-	nextScan uint64
-	Viol     []string     // violations observed by the servers (routing, framing)
-	Now      func() int64 // fake time in ns, set by the simulator
-	StepFn   func() uint64
-	Rand     interface {
+	ExecSeq     uint64
+	Execs       []*Exec
+	Rules       []*Rule
+	Scanners    map[uint64]*Scanner
+	nextScan    uint64
+	zeroIDGiven bool
+	Viol        []string     // violations observed by the servers (routing, framing)
+	Now         func() int64 // fake time in ns, set by the simulator
+	StepFn      func() uint64
+	Rand        interface {
 		Intn(int) int
 		Chance(float64) bool
 	}
@@ -113,6 +114,7 @@ type ScanKnobs struct {
 	Partial   float64 // probability a multi-cell row is cut into fragments
 	Heartbeat float64 // probability of an empty heartbeat response
 	InPB      float64 // probability results travel in protobuf instead of cellblock
+	ZeroID    bool    // the first region scanner of the run gets the id 0
 }
 
 // NewCluster creates n servers with addresses rs0:16020, rs1:16020, ...
